@@ -31,9 +31,10 @@ def hmtxWidths (T : Tables) : List Int :=
 
 /-- error class with which `Read` rejects the table set, `none` if it is accepted -/
 def readErr (T : Tables) : Option String :=
-  -- read.go:76-84: `!(dir.Has("glyf", "loca") || dir.Has("CFF "))`; `Has` is false for a
-  -- zero-length table
-  if (T.scalerCFF && T.cff.isNone) || (!T.scalerCFF && T.outline.emptyGlyf) then some "no-glyph-data" else
+  -- read.go:76-87: `!(hasGlyf && dir.Has("loca") || dir.Has("CFF "))`.
+  -- REPAIRED C01-empty-glyf (3cdbec2): a zero-length glyf table (`T.outline.emptyGlyf`: every
+  -- glyph blank) counts as present, so only a CFF-flavoured file without CFF table is rejected here.
+  if T.scalerCFF && T.cff.isNone then some "no-glyph-data" else
   match settleNumGlyphs T with
   | none => some "hmtx-maxp-mismatch"
   | some n =>
@@ -46,14 +47,16 @@ def readErr (T : Tables) : Option String :=
       else if n ≠ 0 ∧ T.outline.numGlyphs ≠ n then some "ttf-count"
       else none
 
-/-- `Outlines` as assembled by read.go:214-283: hmtx widths override CFF widths; a glyf font
-without usable hmtx has `Widths == nil` -/
+/-- `Outlines` as assembled by read.go:214-290: hmtx widths override CFF widths; a glyf font
+without usable hmtx has all-zero widths -/
 def mergeOutline (T : Tables) : Outline :=
   let hw := hmtxWidths T
   let kind := if T.scalerCFF then Kind.cff else Kind.glyf
   let widths : Option (List Dy) :=
     if hw.length > 0 then some (hw.map Dy.ofInt)
-    else if T.scalerCFF then T.outline.widths else none
+    else if T.scalerCFF then T.outline.widths
+    -- REPAIRED C01-no-hmtx-widths (feedc74): `widths = make([]funit.Int16, len(ttGlyphs))`
+    else some (List.replicate T.outline.numGlyphs (Dy.ofInt 0))
   { T.outline with kind := kind, widths := widths }
 
 /-- the `strings.Contains(… "Bold")` rule of read.go:408-413 -/
@@ -132,7 +135,8 @@ def merge (T : Tables) : FontMeta :=
     match T.post with
     | some p => (Dy.ofInt p.underlinePosition, Dy.ofInt p.underlineThickness)
     | none => match cffI with
-      | some c => (c.underlinePosition, c.underlineThickness)
+      -- REPAIRED C01-no-post-underline (0dc7ef1): rounded to whole units, as makePost stores them
+      | some c => (Dy.ofInt c.underlinePosition.round, Dy.ofInt c.underlineThickness.round)
       | none => (Dy.ofInt 0, Dy.ofInt 0)
   -- style flags
   let sub : Str := match T.name with | some n => n.subfamily | none => []
@@ -194,7 +198,7 @@ def nfVersion (v : Nat) : Nat := verOfDecimal (verThousandths v) 3
 def nfOutline (o : Outline) : Outline :=
   let ws := o.widthList.map fun w => toInt16 w.trunc
   { o with widths := if ws.length > 0 then some (ws.map Dy.ofInt)
-                     else match o.kind with | .cff => o.widths | .glyf => none }
+                     else match o.kind with | .cff => o.widths | .glyf => some [] }
 
 /-- What `Read(Write(F))` is, spelled out.  Every field that is not the identity is a place
 where "comes back unchanged" holds only up to the stated normalisation. -/
@@ -234,21 +238,20 @@ def nf (F : FontMeta) : FontMeta :=
       | some g => some g
       | none => if !isFixedPitch o.widthList && o.hasBest then o.stdLig else none }
 
-/-- table sets where the hmtx and maxp/glyph counts line up (what `Write` always produces) -/
+/-- font values with one advance width per glyph and a version that fits its 32-bit field (what
+the Go types cannot express) -/
 def InDomain (F : FontMeta) : Prop :=
   (∀ l, F.outline.widths = some l → l.length = F.outline.numGlyphs) ∧
-  (F.outline.kind = .glyf → F.outline.emptyGlyf = false) ∧
   F.version < 4294967296
 
 instance (F : FontMeta) : Decidable (InDomain F) := by
   unfold InDomain
   cases h : F.outline.widths with
   | none =>
-    exact decidable_of_iff ((F.outline.kind = .glyf → F.outline.emptyGlyf = false) ∧ F.version < 4294967296)
+    exact decidable_of_iff (F.version < 4294967296)
       ⟨fun h2 => ⟨(by intro l hl; cases hl), h2⟩, fun h2 => h2.2⟩
   | some l0 =>
-    exact decidable_of_iff (l0.length = F.outline.numGlyphs ∧
-        (F.outline.kind = .glyf → F.outline.emptyGlyf = false) ∧ F.version < 4294967296)
+    exact decidable_of_iff (l0.length = F.outline.numGlyphs ∧ F.version < 4294967296)
       ⟨fun h2 => ⟨(by intro l hl; cases hl; exact h2.1), h2.2⟩, fun h2 => ⟨h2.1 l0 rfl, h2.2⟩⟩
 
 end SfntV.Font
